@@ -614,6 +614,7 @@ func runRouterHTTP(cfg *hx.RunCfg) error {
 			"Definition NH2C := Eval vm_compute in sum_cases (http_counter 2) cases.\nPrint NH2C.\n" +
 			"Definition NREGCONFLICT := Eval vm_compute in sum_cases (http_counter 3) cases.\nPrint NREGCONFLICT.\n" +
 			"Definition NSTALE := Eval vm_compute in sum_cases stale_counter cases.\nPrint NSTALE.\n" +
+			"Definition NDEEPHOST := Eval vm_compute in sum_cases (http_counter 6) cases.\nPrint NDEEPHOST.\n" +
 			"Definition NCONNECT := Eval vm_compute in sum_cases (http_counter 4) cases.\nPrint NCONNECT.\n" +
 			"Definition NVIOL := Eval vm_compute in count_if (fun c => negb (C06_holds c)) cases.\nPrint NVIOL.\n",
 	}
